@@ -401,9 +401,26 @@ pub fn edge_f64(r: &mut Rng) -> u64 {
 pub fn edge_v6(r: &mut Rng) -> [u8; 16] {
     let v4 = if r.chance(1, 2) { edge_u32(r) } else { r.next() as u32 }.to_be_bytes();
     let mut b = [0u8; 16];
-    match r.below(12) {
+    match r.below(15) {
         0 => {}
         1 => b[15] = 1,
+        12 => {
+            // a link-local address with something in the groups that are zero by the book (the KAME way of carrying a zone
+            // index: fe80:4::1) - sixteen octets like any others
+            b[0] = 0xfe;
+            b[1] = 0x80;
+            b[2 + r.below(6) as usize] = 1 + r.below(255) as u8;
+            b[15] = 1 + r.below(3) as u8;
+        }
+        13 | 14 => {
+            // prefixes with a meaning of their own: 6to4, Teredo, documentation, unique-local, site-local, ORCHID, solicited-node
+            let pre: &[u8] = *r.pick(&[&[0x20u8, 0x02][..], &[0x20, 0x01, 0x00, 0x00], &[0x20, 0x01, 0x0d, 0xb8], &[0xfc, 0x00], &[0xfd, 0x12], &[0xfe, 0xc0], &[0x20, 0x01, 0x00, 0x10], &[0xff, 0x02, 0, 0, 0, 0, 0, 0, 0, 0, 0, 1, 0xff]]);
+            b[..pre.len()].copy_from_slice(pre);
+            if pre.len() <= 4 && r.chance(1, 2) {
+                b[pre.len()..pre.len() + 4].copy_from_slice(&v4);
+            }
+            b[15] = r.below(3) as u8;
+        }
         2 | 3 => {
             b[10] = 0xff;
             b[11] = 0xff;
@@ -464,7 +481,15 @@ pub fn leaf(r: &mut Rng, ty: usize, len: Option<usize>) -> GV {
                     Some(k) => k.clamp(1, 15),
                     None => *r.pick(&[1usize, 2, 3, 5, 8, 12, 14, 15]),
                 };
-                GV::E164(if r.chance(3, 4) { "359898000135777"[..k].to_string() } else { text(r, k) })
+                GV::E164(match r.below(8) {
+                    0 | 1 | 2 | 3 => "359898000135777"[..k].to_string(),
+                    // numbers as other systems write them: a TBCD filler left at the end, a plus sign, the keypad's other
+                    // keys, hexadecimal digits - text like any other to the codec
+                    4 if k >= 2 => format!("{}{}", &"491711234567890"[..k - 1], r.pick(&["F", "f"])),
+                    5 if k >= 2 => format!("+{}", &"359898000135777"[..k - 1]),
+                    6 if k >= 2 => format!("{}{}", &"*#0012ABCabc999"[..k - 1], r.pick(&["#", "*", "0", "e"])),
+                    _ => text(r, k),
+                })
             }
         },
         T_IPV4 => GV::Ipv4(edge_u32(r).to_be_bytes()),
@@ -3135,6 +3160,13 @@ fn gen_ctcp(o: &mut Out, r: &mut Rng, tier: &str, cuts: bool) {
 
 fn gen_c12(o: &mut Out, r: &mut Rng, d: &GDict, tier: &str, max_corpora: usize) {
     let thorough = tier == "thorough";
+    if max_corpora > 2 {
+        // very many requests outstanding when the reader stops (window sizes, table capacities: 2^16, 2^17 and a little more)
+        for n in if thorough { vec![1000usize, 65536 + 3, 131072 + 5, 300000] } else { vec![300usize, 131072 + 5] } {
+            o.case(&format!("flood n={}", n));
+            o.line(&format!("cliflood {}", n));
+        }
+    }
     let mut uid = 9000u32;
     let n_corpus = (if thorough { 160 } else { 8 }).min(max_corpora);
     for ci in 0..n_corpus {
@@ -3392,8 +3424,9 @@ fn gen_c14(o: &mut Out, r: &mut Rng, tier: &str) {
     // (names that differ only in case or in a trailing blank are different names)
     let names = ["A", "a", "B", "C", "Twin", "twin", "Sess-Id", "Sess-Id ", "名前 x"];
     // (an application and a command may carry the same name: "Accounting" is both in RFC 6733 - two tables, two namespaces)
-    let app_names = ["App A", "app a", "App B", "Base", "CC", "Cmd-A"];
-    let cmd_names = ["Cmd-A", "cmd-a", "Cmd-B", "CC", "CC ", "Base", "App A"];
+    let app_names = ["App A", "app a", "App B", "Base", "CC", "Cmd-A", "App A Application", "App-A", "Base "];
+    // (names that differ by what a "helpful" normalisation would remove: the RFC's -Request / -Answer endings, case, blanks)
+    let cmd_names = ["Cmd-A", "cmd-a", "Cmd-B", "CC", "CC ", "Base", "App A", "Cmd-A-Request", "Cmd-A-Answer", "Cmd-B-Answer", "CC-Request"];
     // a document (its lines without the closing `doc_end`); kept by the history so that the very same document can be
     // supplied again later - the latest supply wins, also when its text was seen before
     let rand_doc = |r: &mut Rng, codes: &[u32], vendors: &[Option<u32>]| -> Vec<String> {
@@ -3481,6 +3514,13 @@ fn gen_c14(o: &mut Out, r: &mut Rng, tier: &str) {
             }
             for n in cmd_names {
                 o.line(&format!("dcmd {}", hexd(n.as_bytes())));
+            }
+            // names nobody declared, one "normalisation" away from declared ones
+            for n in ["Cmd-B-Request", "Cmd-A-", "CC-Answer", "cmd-a-request", "Base-Request"] {
+                o.line(&format!("dcmd {}", hexd(n.as_bytes())));
+            }
+            for n in ["App B Application", "app b", "Base-Application"] {
+                o.line(&format!("dapp {}", hexd(n.as_bytes())));
             }
         }
     }
